@@ -415,6 +415,8 @@ impl VirtualSystem {
             return Err(Errno::ENOENT);
         }
         let has_trailing_slash = path.to_bytes().ends_with(b"/");
+        let last_component = path.to_bytes().rsplit(|&b| b == b'/').next();
+        let names_dot = matches!(last_component, Some(b"." | b".."));
 
         let mut path = self
             .resolve_relative_path(Path::new(UnixStr::from_bytes(path.to_bytes())))
@@ -468,6 +470,10 @@ impl VirtualSystem {
                 // `open` cannot create.
                 if has_trailing_slash {
                     return Err(Errno::EISDIR);
+                }
+                // `.` and `..` only exist in an existing directory.
+                if names_dot {
+                    return Err(Errno::ENOENT);
                 }
                 let mut inode = Inode::new([]);
                 inode.permissions = mode.difference(umask);
